@@ -49,7 +49,7 @@ def _gen_case_a(seed: int, tier: str, index: int) -> Dict[str, Any]:
                         [4, 6, 2, 2, 2, 1, 1, 1, 0.5, 2, 1.5, 2.5, 1.2])[0]
         plan.append({"op": k, "a": rng.getrandbits(30), "b": rng.getrandbits(30), "n": rng.choice([1, 1, 2, 3, 6]), "gap": rng.choice([0.0, 0.05, 0.4, 1.5])})
         if k == "reentrant":
-            plan[-1]["action"] = rng.choice(["unwatch_all", "unwatch_self", "unwatch_next", "swap_next"])
+            plan[-1]["action"] = rng.choice(["unwatch_all", "unwatch_self", "unwatch_next", "swap_next", "write_other", "write_other"])
     cfg = {"profile": profile, "net": net, "loop": {"cost_small_p": 0.1, "cost_small_max": 0.002}, "tables": tables,
            "snapshot": snaps[(index // len(PROFILES)) % len(snaps)].split("/")[-1]}
     return {"property": PROP, "world": "A", "seed": seed, "cfg": cfg, "plan": plan}
@@ -209,14 +209,23 @@ async def scenario(world: WorldA) -> None:
             elif k == "reentrant":
                 # several observers on one item, one of which removes itself / the next one / all of them from inside its callback; then a
                 # change of exactly that item (on the client structure and on the spa's: both structure classes)
-                for mon, lst in ((mon_c, accs), (mon_s, s_accs)):
-                    a = lst[op["a"] % len(lst)]
-                    mon.add_observers(a, 2)
-                    mon.arm(a, op["b"] % 3, op["action"])
                 a = s_accs[op["a"] % len(s_accs)]
                 pos = max(0, min(1022, a.pos))
                 cur = blk[pos:pos + 2]
-                emit([(pos, bytes([cur[0] ^ 0xFF, cur[1] ^ (0xFF if a.length > 1 else 0)]))])
+                if op["action"] == "write_other":
+                    # spa side only (there a write is applied at once): the observer of one of the items that change writes an item
+                    # elsewhere in the block, i.e. starts a block update while the first one is still walking its items
+                    ypos = s_accs[(op["a"] + 37) % len(s_accs)].pos
+                    if pos - 2 <= ypos <= pos + 3:
+                        ypos = (ypos + 50) % 1023
+                    mon_s.arm(a, 0, f"write_other:{ypos}:{blk[ypos] ^ 0x55}")
+                    emit([(pos, bytes([cur[0] ^ 0xFF, cur[1] ^ 0xFF]))])
+                else:
+                    for mon, lst in ((mon_c, accs), (mon_s, s_accs)):
+                        a2 = lst[op["a"] % len(lst)]
+                        mon.add_observers(a2, 2)
+                        mon.arm(a2, op["b"] % 3, op["action"])
+                    emit([(pos, bytes([cur[0] ^ 0xFF, cur[1] ^ (0xFF if a.length > 1 else 0)]))])
             elif k == "spa_unwatch_all":
                 mon_s.unwatch_all(s_accs[op["a"] % len(s_accs)])
         world.net.healed = True
@@ -278,7 +287,7 @@ ASSUMPTIONS = [
     "for temperature items 'changed' means the stored word changed; the passed values are only required to differ",
     "coverage of update geometries is measured (probe table), not asserted",
 ]
-PROBES = ["same_message_again_after_a_refresh", "temperature_creeps_by_a_raw_unit", "temperature_unit_flipped", "refresh_judged_as_one_update", "observer_blocked_in_callback", "unwatch_from_client_thread", "unwatch_all_from_client_thread", "registration_changed_during_an_update", "several_observers_on_one_item", "reentrant_unwatch_all", "reentrant_unwatch_self", "reentrant_unwatch_next", "reentrant_swap_next", "update_aimed_at_item", "straddling_update_notified", "silent_although_bytes_changed", "duplicate_update", "a_b_a", "watched_twice", "unwatched", "unwatch_all"]
+PROBES = ["same_message_again_after_a_refresh", "observer_writes_another_item_during_the_update", "update_nested_inside_an_update", "temperature_creeps_by_a_raw_unit", "temperature_unit_flipped", "refresh_judged_as_one_update", "observer_blocked_in_callback", "unwatch_from_client_thread", "unwatch_all_from_client_thread", "registration_changed_during_an_update", "several_observers_on_one_item", "reentrant_unwatch_all", "reentrant_unwatch_self", "reentrant_unwatch_next", "reentrant_swap_next", "update_aimed_at_item", "straddling_update_notified", "silent_although_bytes_changed", "duplicate_update", "a_b_a", "watched_twice", "unwatched", "unwatch_all"]
 N_QUICK = 1020
 
 
